@@ -59,7 +59,7 @@ func TestVF_C07(t *testing.T) {
 	r := vfkit.Start(t, "C07")
 	defer r.Finish()
 	r.Rule("case = one generated fixture (1..3 real TSDB blocks with sparse labels, stored labels colliding with external label names, optionally one block labelled 5m resolution; " +
-		"a real tsdb.DB over the same block dirs plus head series; BucketStore (lazy postings on/off), TSDBStore whose external labels are replaced twice per fixture with SetExtLset (name added / removed, value changed), and a ProxyStore over both) x generated requests " +
+		"a real tsdb.DB over the same block dirs plus head series; BucketStore (lazy postings on/off), TSDBStore whose external labels are replaced twice per fixture with SetExtLset (name added / removed, value changed), a twin TSDBStore that differs only in the replica external label and holds other series, and a ProxyStore over the three) x selector sessions (one selector set and replica list issued with 1..4 ranges: single, narrow-then-wide, wide-then-narrow, disjoint windows, growing, free) " +
 		"(1..3 matchers of 20 shapes incl. on external/absent names, or no selector at all; ranges around block/chunk edges; replica-label lists over external/stored/absent names). " +
 		"oracle: for the same selectors, range and replica list, names(Series) is a subset of LabelNames and for each label L seen values_L(Series) is a subset of LabelValues(L). " +
 		"evaluation = one subset check; distinct/non-trivial = (fixture, store, request) whose Series call returned at least one series")
@@ -92,13 +92,13 @@ func vfc07RunFixture(t *testing.T, r *vfkit.Run, c int, rng *rand.Rand, nReq int
 	bs := vfc07NewBucketStore(t, fx, vfc07StoreCfg{
 		cache:     []string{"none", "large", "tiny"}[rng.Intn(3)],
 		sampling:  []int{1, 2, 32}[rng.Intn(3)],
-		estSeries: []uint64{0, 0, 64, 300}[rng.Intn(4)],
+		estSeries: []uint64{0, 8, 16, 64}[rng.Intn(4)],
 		hints:     rng.Intn(2) == 0,
 	})
 	defer func() { _ = bs.Close() }()
-	lazy := rng.Intn(2) == 0
+	lazy := rng.Intn(3) != 0
 	bs.enabledLazyExpandedPostings = lazy
-	bs.seriesMatchRatio = 0.9
+	bs.seriesMatchRatio = []float64{0.9, 0.99}[rng.Intn(2)]
 	if rng.Intn(2) == 0 {
 		bs.postingGroupMaxKeySeriesRatio = 0.2
 	}
@@ -122,13 +122,31 @@ func vfc07RunFixture(t *testing.T, r *vfkit.Run, c int, rng *rand.Rand, nReq int
 		storetestutil.TestClient{Name: "tsdb", StoreClient: storepb.ServerAsClient(vfc07OwnReq{ts}, atomic.Bool{}), ExtLset: tsdbSets, MinTime: tmin, MaxTime: tmax, WithoutReplicaLabelsEnabled: repl},
 		storetestutil.TestClient{Name: "bucket", StoreClient: storepb.ServerAsClient(vfc07OwnReq{bs}, atomic.Bool{}), ExtLset: blockExts, MinTime: bmin, MaxTime: bmax, WithoutReplicaLabelsEnabled: repl},
 	}
+	// a twin of the TSDB member: same external labels except the replica label, other series (a second
+	// receive replica / diverged HA peer); all its series carry the label twin="b"
+	twinExt := func(e labels.Labels) labels.Labels {
+		v := "r1"
+		if e.Get("replica") == "r1" {
+			v = "r2"
+		}
+		return labels.NewBuilder(e).Set("replica", v).Labels()
+	}
+	db2 := vfc07OpenHeadDB(filepath.Join(dir, "twin"), rng, fx.u, 3+rng.Intn(10), fx.tmin-fx.tmin%vfc07Step, 20, labels.Label{Name: "twin", Value: "b"})
+	defer func() { _ = db2.Close() }()
+	ts2 := NewTSDBStore(nil, db2, component.Receive, twinExt(tsdbExt))
+	defer ts2.Close()
+	t2min, t2max := ts2.TimeRange()
+	twinClient := func() Client {
+		return storetestutil.TestClient{Name: "tsdb-twin", StoreClient: storepb.ServerAsClient(vfc07OwnReq{ts2}, atomic.Bool{}), ExtLset: []labels.Labels{twinExt(tsdbExt)}, MinTime: t2min, MaxTime: t2max, WithoutReplicaLabelsEnabled: repl}
+	}
+	clients = append(clients, twinClient())
 	strategy := []RetrievalStrategy{EagerRetrieval, LazyRetrieval}[rng.Intn(2)]
 	px := NewProxyStore(nil, nil, func() []Client { return clients }, component.Query, labels.EmptyLabels(), 0*time.Second, strategy)
 
 	stores := []vfc07Store{
 		{kind: "tsdb", srv: ts, extNames: vfc07ExtNames(tsdbExt)},
 		{kind: "bucket", srv: bs, extNames: vfc07ExtNames(blockExts...)},
-		{kind: "proxy", srv: px, extNames: vfc07ExtNames(append(append([]labels.Labels{}, blockExts...), tsdbExt)...)},
+		{kind: "proxy", srv: px, extNames: vfc07ExtNames(append(append([]labels.Labels{}, blockExts...), tsdbExt, twinExt(tsdbExt))...)},
 	}
 	r.Sample(map[string]any{"case": c, "blocks": vfc07DescribeFixture(fx), "tsdb_ext": tsdbExt.String(), "stored_names": fx.u.names, "lazy_postings": lazy, "proxy_strategy": string(strategy)})
 
@@ -138,20 +156,39 @@ func vfc07RunFixture(t *testing.T, r *vfkit.Run, c int, rng *rand.Rand, nReq int
 		r.Count("wall_ms_stores", int(t2.Sub(t1)/time.Millisecond))
 		r.Count("wall_ms_requests", int(time.Since(t2)/time.Millisecond))
 	}()
-	for q := 0; q < nReq; q++ {
-		if q == nReq/3 || q == 2*nReq/3 {
+	reconfigs := 0
+	for q := 0; q < nReq; {
+		if reconfigs < 2 && q >= (reconfigs+1)*nReq/3 {
+			reconfigs++
 			// reconfiguration history on the one TSDBStore: its external labels are replaced at run time
 			// (added / removed name, changed value); all three APIs must speak about the current set
 			tsdbExt = vfc07NextExtSet(rng, tsdbExt)
 			ts.SetExtLset(tsdbExt)
 			clients[0] = storetestutil.TestClient{Name: "tsdb", StoreClient: storepb.ServerAsClient(vfc07OwnReq{ts}, atomic.Bool{}), ExtLset: []labels.Labels{tsdbExt}, MinTime: tmin, MaxTime: tmax, WithoutReplicaLabelsEnabled: repl}
+			ts2.SetExtLset(twinExt(tsdbExt))
+			clients[2] = twinClient()
 			stores[0].extNames = vfc07ExtNames(tsdbExt)
-			stores[2].extNames = vfc07ExtNames(append(append([]labels.Labels{}, blockExts...), tsdbExt)...)
+			stores[2].extNames = vfc07ExtNames(append(append([]labels.Labels{}, blockExts...), tsdbExt, twinExt(tsdbExt))...)
 			r.Count("tsdb_external_label_reconfigurations", 1)
 		}
-		ms := vfc07GenMatchers(rng, fx.u, 0.12)
-		mint, maxt := fx.vfc07Range(rng)
+		// a selector session: one selector set / replica list, a sequence of ranges (narrow then wide, wide
+		// then narrow, disjoint, ...), so that index-cache entries written under one range are read under another
+		var ms []vfc07M
+		if rng.Intn(4) == 0 {
+			ms = vfc07GenMatchersPositive(rng, fx.u)
+		} else {
+			ms = vfc07GenMatchers(rng, fx.u, 0.12)
+		}
 		replica := vfc07GenReplicaLabels(rng, fx.u)
+		if len(replica) > 0 && rng.Intn(3) == 0 {
+			has := false
+			for _, n := range replica {
+				has = has || n == "replica"
+			}
+			if !has {
+				replica = append(replica, "replica")
+			}
+		}
 		selectorless := rng.Intn(6) == 0
 		skip := rng.Intn(3) == 0
 		var res int64
@@ -165,11 +202,19 @@ func vfc07RunFixture(t *testing.T, r *vfkit.Run, c int, rng *rand.Rand, nReq int
 			seriesMs = []storepb.LabelMatcher{{Type: storepb.LabelMatcher_RE, Name: all, Value: ".*"}}
 			labelMs = nil
 		}
-		for _, st := range stores {
-			if st.kind == "proxy" && q%2 == 1 {
-				continue // the proxy repeats the work of both members; drive it on every second request
+		pattern, ranges := vfc07SessionRanges(rng, fx)
+		r.Count("selector_sessions_"+pattern, 1)
+		for _, rg := range ranges {
+			if q >= nReq {
+				break
 			}
-			vfc07CheckRequest(r, c, rng, fx, st, seriesMs, labelMs, mint, maxt, replica, skip, res, selectorless, !selectorless && vfc07Class(ms) == vfc07DupSetClass)
+			for _, st := range stores {
+				if st.kind == "proxy" && q%2 == 1 {
+					continue // the proxy repeats the work of its members; drive it on every second request
+				}
+				vfc07CheckRequest(r, c, rng, fx, st, seriesMs, labelMs, rg[0], rg[1], replica, skip, res, selectorless, !selectorless && vfc07Class(ms) == vfc07DupSetClass)
+			}
+			q++
 		}
 	}
 }
